@@ -85,6 +85,11 @@ fn main() {
     }
     util::install_panic_hook();
     let mut rep = Report::new(&args.prop);
+    // one shard in four (and every replay) runs as a user with RUST_LOG=trace does: every log statement of the code
+    // under test is enabled, so its arguments are evaluated. Installed before the first decode.
+    if (args.replay.is_some() || args.shard % 4 == 2) && util::enable_all_logging() {
+        rep.class("config:every-log-statement-enabled(shard)");
+    }
     match args.prop.as_str() {
         "C01" => props::c01::run(&args, &mut rep),
         "C02" => props::c02::run(&args, &mut rep),
